@@ -375,6 +375,31 @@ theorem fromStates_times_eq_all (inp : Inputs ℝ) (kCN : Nat) (hall : ∀ i, i 
 theorem hyp_jump_of_valid (ph : Phys) (hv : ph.Valid) (p : Params ℝ) (hc : p.c = ph.consts) : JumpPos p :=
   jumpPos_of_valid ph hv p hc
 
+/-- **K7**: a query time BEYOND the last grid time: `np.argmax(self._t >= t)` of an all-False array
+is 0, so the states path of `sigmaCounter` silently reports the INITIAL column.  Here (`t = 5 > 2`) it
+counts 0 nucleated vials although the last stored column holds ice (`σ = 41/44`) and the stats path
+counts the vial (`t_nucleation = 1 ≤ 5`).  (`counter_states` carries the hypothesis `∃ x ∈ t, q ≤ x`.) -/
+theorem counter_states_beyond_end_counterexample (kCN : Nat) :
+    timeVec 3 (cexInp 2).p.dt = [0, 1, 2] ∧ sigmaRow (cexInp 2) kCN 0 = [0, 1/2, 41/44] ∧
+    sigmaCounter true [5] (some 0) (cexInp 2).p.threshold true (timeVec 3 (cexInp 2).p.dt)
+        [sigmaRow (cexInp 2) kCN 0] [(finalV (cexInp 2) kCN 0).tNuc] [(finalV (cexInp 2) kCN 0).tSol] = .ok [0] ∧
+    sigmaCounter true [5] (some 0) (cexInp 2).p.threshold false (timeVec 3 (cexInp 2).p.dt)
+        [sigmaRow (cexInp 2) kCN 0] [(finalV (cexInp 2) kCN 0).tNuc] [(finalV (cexInp 2) kCN 0).tSol] = .ok [1] := by
+  have h1 : (finalV (cexInp 2) kCN 0).tNuc = some 1 := by rw [finalV, cex2_final]; exact (cex_step2 2 kCN _).1
+  have ht : timeVec 3 (cexInp 2).p.dt = [0, 1, 2] := by
+    rw [Snow.CNT.timeVec_real 3 (by simp [cexInp])]; simp [cexInp, List.range_succ]
+  refine ⟨ht, cex2_sigmaRow kCN, ?_, ?_⟩
+  · rw [ht, cex2_sigmaRow]
+    have hI : timeIdx ([0, 1, 2] : List ℝ) 5 = 0 := by
+      unfold timeIdx
+      apply argmaxBool_none
+      intro x hx
+      simp only [List.mem_cons, List.not_mem_nil, or_false] at hx
+      rcases hx with rfl | rfl | rfl <;> norm_num
+    simp [sigmaCounter, sigmaCount1, countAbove, hI]
+  · rw [h1]
+    simp [sigmaCounter, sigmaCount1, countLe]
+
 /-- **the rows the theorems speak about are rows of the model's stored matrix** (full recording):
 column `k` of `Result.X` holds `tempRow i` at position `i` and `sigmaRow i` at position `n + i` —
 exactly what the accessors read as `X_T[i, k]` and `X_sigma[i, k]`. -/
